@@ -294,18 +294,24 @@ def shrink(prop, case, pred, max_rounds=60, deadline=None):
     return cur
 
 
+def _out_root():
+    """evidence/ and replays/ live in /verif, unless VERIF_OUT redirects them (runs against a scratch copy of the
+    repository must not overwrite the evidence of the real tree)"""
+    return os.environ.get("VERIF_OUT") or VERIF
+
+
 def write_replay(prop_id, payload):
-    os.makedirs(os.path.join(VERIF, "replays"), exist_ok=True)
+    os.makedirs(os.path.join(_out_root(), "replays"), exist_ok=True)
     h = hashlib.sha1(json.dumps(payload, sort_keys=True, default=str).encode()).hexdigest()[:12]
-    path = os.path.join(VERIF, "replays", f"{prop_id}-{h}.json")
+    path = os.path.join(_out_root(), "replays", f"{prop_id}-{h}.json")
     with open(path, "w") as f:
         json.dump(payload, f, indent=1, sort_keys=True, default=str)
     return os.path.relpath(path, VERIF)
 
 
 def write_evidence(prop_id, ev):
-    os.makedirs(os.path.join(VERIF, "evidence"), exist_ok=True)
-    path = os.path.join(VERIF, "evidence", f"{prop_id}.json")
+    os.makedirs(os.path.join(_out_root(), "evidence"), exist_ok=True)
+    path = os.path.join(_out_root(), "evidence", f"{prop_id}.json")
     tmp = path + ".tmp"
     with open(tmp, "w") as f:
         json.dump(ev, f, indent=1, sort_keys=True, default=str)
